@@ -163,6 +163,7 @@ struct World {
   virtual void execute(const Plan& p, Ctx& ctx) = 0;       // throws Violation
   virtual const char* step_name(int kind) const { (void)kind; return "step"; }
   virtual std::string family_of(const Plan& p) const { (void)p; return name(); }
+  virtual bool shrinkable() const { return true; }          // false: the oracle needs data that exists for generated plans only
   // argument simplification candidates for shrinking (optional): return simpler variants of the plan
   virtual void simplify(const Plan& p, std::vector<Plan>& out) const { (void)p; (void)out; }
 };
@@ -295,6 +296,7 @@ struct ShrinkResult { Plan plan; int executions = 0; };
 
 inline ShrinkResult shrink(World* w, const Plan& failing, const std::string& fingerprint, bool forked, int max_exec = 600) {
   ShrinkResult r; r.plan = failing;
+  if (!w->shrinkable()) return r;
   auto fails = [&](const Plan& cand) -> bool {
     if (r.executions >= max_exec) return false;
     r.executions++;
